@@ -22,8 +22,8 @@ func init() {
 		NotCovered: "capture-freedom under colliding names (scope handling of macro boundaries in checker and compiler); that expansion results are wrapped in macro boundary nodes.",
 	}
 	props["C33"] = &PropSpec{
-		Rules:      []string{"path/abort-before-backedge", "cover/flagprop", "path/ctx-blocking"},
-		Decides:    "that the context-aware variants of the blocking channel operations really are interruptible (every channel send/receive in a function taking a context is an arm of a select that also receives from ctx.Done(), and none delegates to the bare blocking sibling); that every user-level loop the compiler emits has a cancellation point on its back edge when abort checks are requested (each emitLoop site is preceded by the CHECK_ABORT guard; two bounded internal loops are reasoned exceptions), and that the request reaches every nested compiler (methods, closures, defers, class/module/mixin/interface/singleton bodies inherit additionalAbortChecks and the diagnostic list from their parent).",
+		Rules:      []string{"path/abort-before-backedge", "path/abort-before-jump", "cover/flagprop", "path/ctx-blocking"},
+		Decides:    "that the context-aware variants of the blocking channel operations really are interruptible (every channel send/receive in a function taking a context is an arm of a select that also receives from ctx.Done(), and none delegates to the bare blocking sibling); that `continue` and tail calls, which go round without passing the end of a loop body or a return, carry a cancellation point of their own; that every user-level loop the compiler emits has a cancellation point on its back edge when abort checks are requested (each emitLoop site is preceded by the CHECK_ABORT guard; two bounded internal loops are reasoned exceptions), and that the request reaches every nested compiler (methods, closures, defers, class/module/mixin/interface/singleton bodies inherit additionalAbortChecks and the diagnostic list from their parent).",
 		NotCovered: "promptness (timing); native methods that block without watching the thread's abort context (sleep, Mutex#lock, WaitGroup#wait, channel iteration): candidates located by reading, not armed.",
 	}
 	props["C12"] = &PropSpec{
